@@ -36,7 +36,7 @@ type c04Case struct {
 	// start of every token of the source.
 	ExprCore  [][2]int `json:"expr_core,omitempty"`
 	TokStarts [][2]int `json:"tok_starts,omitempty"`
-	Mode      Mode      `json:"mode"`
+	Mode      Mode     `json:"mode"`
 	// Builder history: Split > 0 installs only Chain[:Split] before the first
 	// parsers are built and the rest afterwards; Builds is the number of parsers
 	// built (and used) from the same builder in each stage (0 = 1).
